@@ -16,6 +16,9 @@
  *
  * Objects: o (original), c (copy), t1 / t2 (twins: built like o, they get the same pre-copy history; t1 then
  * mirrors the operations done on o, t2 those done on c).  The caller compares o≡t1 and c≡t2 line by line.
+ *
+ * Unit scenarios (`rbt <ks> <vs>`, `arr <size>`, `strt`): the generic containers the hooks duplicate (rbtree_copy,
+ * array_init_copy, str_table_copy), objects o and c only; every answer is predicted by `sqfsmodel c19 unit`.
  */
 #include "config.h"
 #include "lib/sqfs/src/frag_table.c"
@@ -37,6 +40,10 @@
 #include "sqfs/super.h"
 #include "sqfs/xattr.h"
 #include "sqfs/dir.h"
+#include "util/rbtree.h"
+#include "util/array.h"
+#include "util/str_table.h"
+#include "util/hash_table.h"
 #include "hexio.h"
 #include <stdio.h>
 #include <stdarg.h>
@@ -110,7 +117,9 @@ static int count_fds(void)
 	return n - 3;	/* ., .., the dirfd itself */
 }
 
-enum { K_COMP, K_IDT, K_FRAGT, K_FILE, K_META, K_DIR, K_DATA, K_XRD, K_XWR, K_WFILE };
+enum { K_COMP, K_IDT, K_FRAGT, K_FILE, K_META, K_DIR, K_DATA, K_XRD, K_XWR, K_WFILE,
+       K_RBT, K_ARR, K_STRT };	/* the last three: the generic containers as units (objects o and c only, no sqfs_object_t) */
+#define IS_UNIT(k) ((k) >= K_RBT)
 #define NOBJ 4		/* o, c, t1, t2 */
 static const char *objname[NOBJ] = { "o", "c", "t1", "t2" };
 
@@ -143,6 +152,9 @@ static int target(const char *s)
 			return i;
 	return -1;
 }
+
+static size_t U_ks, U_vs, U_sz;	/* unit scenarios: key / value size of the tree, element size of the array */
+static int unit_setup(void);
 
 /* ------------------------------------------------------------------ construction */
 static void *make_object(void)
@@ -220,6 +232,9 @@ static int setup(int argc, char **argv)	/* argv[0] = kind */
 	else if (!strcmp(k, "dir") && argc >= 3) { E.kind = K_DIR; E.dirflags = strtoul(argv[2], 0, 0); if (open_image(argv[1])) return -1; }
 	else if (!strcmp(k, "data") && argc >= 2) { E.kind = K_DATA; if (open_image(argv[1])) return -1; }
 	else if (!strcmp(k, "xattr") && argc >= 2) { E.kind = K_XRD; if (open_image(argv[1])) return -1; }
+	else if (!strcmp(k, "rbt") && argc >= 3) { E.kind = K_RBT; U_ks = strtoul(argv[1], 0, 0); U_vs = strtoul(argv[2], 0, 0); return unit_setup(); }
+	else if (!strcmp(k, "arr") && argc >= 2) { E.kind = K_ARR; U_sz = strtoul(argv[1], 0, 0); return unit_setup(); }
+	else if (!strcmp(k, "strt")) { E.kind = K_STRT; return unit_setup(); }
 	else return -1;
 	for (i = 0; i < NOBJ; ++i) {
 		if (i == 1) continue;		/* c is made by `copy` */
@@ -270,7 +285,7 @@ static unsigned long long fields_hash(int kind, const void *o)
 	case K_META: { const sqfs_meta_reader_t *m = o; HH_FIELD(&x, m->start); HH_FIELD(&x, m->limit); HH_FIELD(&x, m->data_used);
 		HH_FIELD(&x, m->block_offset); HH_FIELD(&x, m->next_block); HH_FIELD(&x, m->offset); hh_add(&x, m->data, sizeof(m->data)); break; }
 	case K_DIR: { const sqfs_dir_reader_t *d = o; hh_add(&x, &d->super, sizeof(d->super)); HH_FIELD(&x, d->flags);
-		if (d->flags & SQFS_DIR_READER_DOT_ENTRIES) { HH_FIELD(&x, d->dcache.key_size); HH_FIELD(&x, d->dcache.value_size); HH_FIELD(&x, d->dcache.key_compare); }
+		if (d->flags & SQFS_DIR_READER_DOT_ENTRIES) { HH_FIELD(&x, d->dcache.key_size); HH_FIELD(&x, d->dcache.key_size_padded); HH_FIELD(&x, d->dcache.value_size); HH_FIELD(&x, d->dcache.key_compare); }
 		break; }
 	case K_DATA: { const sqfs_data_reader_t *d = o; HH_FIELD(&x, d->data_blk_size); HH_FIELD(&x, d->current_block); HH_FIELD(&x, d->current_block_word);
 		HH_FIELD(&x, d->frag_blk_size); HH_FIELD(&x, d->current_frag_index); HH_FIELD(&x, d->block_size); break; }
@@ -278,7 +293,7 @@ static unsigned long long fields_hash(int kind, const void *o)
 		HH_FIELD(&x, r->num_ids); break; }
 	case K_XWR: { const sqfs_xattr_writer_t *w = o; HH_FIELD(&x, w->kv_start); HH_FIELD(&x, w->num_blocks); HH_FIELD(&x, w->keys.next_index);
 		HH_FIELD(&x, w->values.next_index); HH_FIELD(&x, w->kv_pairs.size); HH_FIELD(&x, w->kv_pairs.used);
-		HH_FIELD(&x, w->kv_block_tree.key_size); HH_FIELD(&x, w->kv_block_tree.value_size); HH_FIELD(&x, w->kv_block_tree.key_compare); break; }
+		HH_FIELD(&x, w->kv_block_tree.key_size); HH_FIELD(&x, w->kv_block_tree.key_size_padded); HH_FIELD(&x, w->kv_block_tree.value_size); HH_FIELD(&x, w->kv_block_tree.key_compare); break; }
 	}
 	return x.h;
 }
@@ -294,17 +309,20 @@ static void hh_strtable(hh_t *x, const str_table_t *t)
 	}
 }
 
-static void hh_tree(hh_t *x, const rbtree_t *t, const rbtree_node_t *n, int xwr)
+/* every byte of every node, in pre-order with the shape (NULL children marked): colour, value_offset and all
+   key_size_padded + value_size bytes of data[] (key, padding, value).  `mask` bytes at the start of data[] hold a pointer
+   into the own object (xattr writer: kv_block_desc_t.next) and count only as NULL / not NULL. */
+static void hh_tree(hh_t *x, const rbtree_t *t, const rbtree_node_t *n, size_t mask)
 {
-	if (!n) return;
-	hh_tree(x, t, n->left, xwr);
-	if (xwr) {	/* key = kv_block_desc_t: everything but the list pointer */
-		const kv_block_desc_t *d = rbtree_node_key((rbtree_node_t *)n);
-		hh_u64(x, d->start); hh_u64(x, d->count); hh_u64(x, d->start_ref); hh_u64(x, d->size_bytes);
-	} else hh_add(x, rbtree_node_key((rbtree_node_t *)n), t->key_size);
-	hh_add(x, rbtree_node_value((rbtree_node_t *)n), t->value_size);
-	hh_tree(x, t, n->right, xwr);
+	size_t i, len = t->key_size_padded + t->value_size;
+	if (!n) { hh_u64(x, 0x4e554c4cULL); return; }
+	hh_u64(x, n->is_red); hh_u64(x, n->value_offset);
+	if (mask) { int nz = 0; for (i = 0; i < mask && i < len; ++i) nz |= n->data[i]; hh_u64(x, nz != 0); }
+	if (len > mask) hh_add(x, n->data + mask, len - mask);
+	hh_tree(x, t, n->left, mask);
+	hh_tree(x, t, n->right, mask);
 }
+#define XWR_MASK (offsetof(kv_block_desc_t, next) == 0 ? sizeof(void *) : 0)
 
 /* fields, the used part of every owned buffer (cached blocks: all block_size bytes, the readers index that far), and
    the same for the objects it owns through deep references (shared file and compressor are not part of it) */
@@ -330,7 +348,7 @@ static unsigned long long view_hash(int kind, const void *o)
 	case K_XWR: { const sqfs_xattr_writer_t *w = o; const kv_block_desc_t *it; size_t guard = 0;
 		hh_strtable(&x, &w->keys); hh_strtable(&x, &w->values);
 		hh_add(&x, w->kv_pairs.data, w->kv_pairs.used * w->kv_pairs.size);
-		hh_tree(&x, &w->kv_block_tree, w->kv_block_tree.root, 1);
+		hh_tree(&x, &w->kv_block_tree, w->kv_block_tree.root, XWR_MASK);
 		for (it = w->kv_block_first; it && guard < 100000; it = it->next, ++guard) hh_u64(&x, it->start);
 		break; }
 	default: break;
@@ -439,7 +457,7 @@ static void probe(const void *o, const void *c, const rcsnap_t *s, char *buf, si
 		const char *ctx = b->kv_block_tree.key_context == (void *)b ? "own" : (b->kv_block_tree.key_context == (void *)a ? "alias" : "other");
 		const char *tr = bufstate(a->kv_block_tree.root, b->kv_block_tree.root);
 		if (!strcmp(tr, "dup") || !strcmp(tr, "trim")) {
-			hh_t x, y; hh_init(&x); hh_init(&y); hh_tree(&x, &a->kv_block_tree, a->kv_block_tree.root, 1); hh_tree(&y, &b->kv_block_tree, b->kv_block_tree.root, 1);
+			hh_t x, y; hh_init(&x); hh_init(&y); hh_tree(&x, &a->kv_block_tree, a->kv_block_tree.root, XWR_MASK); hh_tree(&y, &b->kv_block_tree, b->kv_block_tree.root, XWR_MASK);
 			if (x.h != y.h) tr = "differ";
 		}
 		snprintf(buf + k, n - k, " bufs=%s,%s,%s,%s,%s refs= self=%s,%s,%s", strtable_state(&a->keys, &b->keys),
@@ -456,6 +474,27 @@ static void put_hex(const unsigned char *p, size_t n)
 	if (!p) { putchar('N'); return; }
 	if (n == 0) { putchar('-'); return; }
 	for (i = 0; i < n; ++i) { putchar(d[p[i] >> 4]); putchar(d[p[i] & 15]); }
+}
+
+/* a tree as tokens, pre-order: `<r|b><value_offset>:<all bytes of data[]>`, `x` = NULL (format of `sqfsmodel c19 unit` / `copystate`) */
+static void tree_tokens(const rbtree_t *t, const rbtree_node_t *n, int *first)
+{
+	if (!*first) putchar(',');
+	*first = 0;
+	if (!n) { putchar('x'); return; }
+	printf("%c%u:", n->is_red ? 'r' : 'b', n->value_offset);
+	put_hex(n->data, t->key_size_padded + t->value_size);
+	tree_tokens(t, n->left, first);
+	tree_tokens(t, n->right, first);
+}
+
+#define QMAX 256
+static void dir_keys(const rbtree_node_t *n, sqfs_u32 *q, size_t *nq)
+{
+	if (!n) return;
+	dir_keys(n->left, q, nq);
+	if (*nq < QMAX) { sqfs_u32 k; memcpy(&k, n->data, sizeof(k)); q[(*nq)++] = k; }
+	dir_keys(n->right, q, nq);
 }
 
 static void dump_state(const char *name, const void *o)
@@ -475,6 +514,21 @@ static void dump_state(const char *name, const void *o)
 		printf("dump %s meta start=%llu limit=%llu tag=%llu next=%llu used=%zu off=%zu data=", name, (unsigned long long)m->start, (unsigned long long)m->limit,
 		       (unsigned long long)m->block_offset, (unsigned long long)m->next_block, m->data_used, m->offset);
 		put_hex(m->data, sizeof(m->data));
+		putchar('\n'); fflush(stdout);
+	} else if (E.kind == K_DIR) {
+		/* the inode-number -> reference cache: every node with colour, value_offset and all bytes of data[], in pre-order
+		   (`x` = NULL child); `q` = inode numbers asked of sqfs_dir_reader_resolve_inum (every cached one and a few
+		   others), `res` = its answers */
+		sqfs_dir_reader_t *d = (sqfs_dir_reader_t *)o; sqfs_u32 q[QMAX + 8]; size_t nq = 0, i; int dots = (d->flags & SQFS_DIR_READER_DOT_ENTRIES) != 0;
+		if (dots) dir_keys(d->dcache.root, q, &nq);
+		q[nq++] = 0; q[nq++] = 1; q[nq++] = 2; q[nq++] = E.super.inode_count; q[nq++] = E.super.inode_count + 1;
+		printf("dump %s dir flags=%u ks=%zu kp=%zu vs=%zu q=", name, d->flags, dots ? d->dcache.key_size : (size_t)0,
+		       dots ? d->dcache.key_size_padded : (size_t)0, dots ? d->dcache.value_size : (size_t)0);
+		for (i = 0; i < nq; ++i) printf("%s%u", i ? "," : "", q[i]);
+		printf(" tree=");
+		if (dots) { int first = 1; tree_tokens(&d->dcache, d->dcache.root, &first); } else printf("none");
+		printf(" res=");
+		for (i = 0; i < nq; ++i) { sqfs_u64 ref = 0; int r = sqfs_dir_reader_resolve_inum(d, q[i], &ref); printf("%s%u:%d:%llu", i ? "," : "", q[i], r, r ? 0ULL : (unsigned long long)ref); }
 		putchar('\n'); fflush(stdout);
 	} else out("dump %s unsupported", name);
 }
@@ -581,9 +635,61 @@ static void op_dir(sqfs_dir_reader_t *d, int argc, char **argv)
 			if (r) break;
 			for (i = 0; i <= ent->size; ++i) { h ^= ent->name[i]; h *= 1099511628211ULL; }
 			h ^= ent->type; h *= 1099511628211ULL; h ^= (st.ent_ref & 0xffffffff); h *= 1099511628211ULL;
+			h ^= (st.ent_ref >> 32); h *= 1099511628211ULL;	/* all 64 bits of the reference */
 			++n; sqfs_free(ent);
 		}
 		out("list %d %d %016llx", r > 0 ? 0 : r, n, h); sqfs_free(ino);
+	} else if (argc >= 2 && !strcmp(argv[0], "dots")) {
+		/* open the directory and read its first two entries ("." and ".." when the reader makes them), with the full
+		   reference each carries, and load the inode behind that reference */
+		sqfs_inode_generic_t *ino = NULL, *p; sqfs_dir_reader_state_t st; sqfs_dir_node_t *ent; sqfs_u64 ref = E.super.root_inode_ref;
+		char b[512]; int r = 0, k, n = 0;
+		if (strcmp(argv[1], "/")) r = sqfs_dir_reader_resolve_path(d, argv[1], NULL, &ref);
+		if (!r) r = sqfs_dir_reader_get_inode(d, ref, &ino);
+		if (!r) r = sqfs_dir_reader_open_dir(d, ino, &st, 0);
+		n = snprintf(b, sizeof(b), "dots %d", r);
+		for (k = 0; !r && k < 2; ++k) {
+			int e, g; char hb[128];
+			ent = NULL; p = NULL;
+			e = sqfs_dir_reader_read(d, &st, &ent);
+			if (e) { n += snprintf(b + n, sizeof(b) - n, " e%d=%d", k, e); break; }
+			put_bytes(hb, sizeof(hb), ent->name, ent->size + 1);
+			g = sqfs_dir_reader_get_inode(d, st.ent_ref, &p);
+			n += snprintf(b + n, sizeof(b) - n, " %s:%llu:%d:%u", hb, (unsigned long long)st.ent_ref, g, g ? 0 : p->base.inode_number);
+			sqfs_free(ent); sqfs_free(p);
+		}
+		out("%s", b); sqfs_free(ino);
+	} else if (argc >= 2 && !strcmp(argv[0], "inumof")) {
+		/* resolve_inum of the inode number that `path` has (found through the scenario's private helper reader) */
+		sqfs_inode_generic_t *ino = NULL; sqfs_u64 ref = 0; int r;
+		if (inode_of(argv[1], &ino)) { out("inumof no-such-path"); return; }
+		r = sqfs_dir_reader_resolve_inum(d, ino->base.inode_number, &ref);
+		out("inumof %d %llu", r, r ? 0ULL : (unsigned long long)ref); sqfs_free(ino);
+	} else if (argc >= 3 && !strcmp(argv[0], "rel")) {
+		/* path resolution that starts at a directory inode (`-` = empty path: the reference of the start inode itself) */
+		sqfs_inode_generic_t *ino = NULL; sqfs_u64 ref = 0; int r;
+		if (inode_of(argv[1], &ino)) { out("rel no-such-path"); return; }
+		r = sqfs_dir_reader_resolve_path(d, strcmp(argv[2], "-") ? argv[2] : "", ino, &ref);
+		out("rel %d %llu", r, r ? 0ULL : (unsigned long long)ref); sqfs_free(ino);
+	} else if (argc >= 2 && !strcmp(argv[0], "walk")) {
+		/* list a directory and load the inode of every entry (directory inodes enter the cache) */
+		sqfs_inode_generic_t *ino = NULL, *p; sqfs_dir_reader_state_t st; sqfs_dir_node_t *ent; sqfs_u64 ref = E.super.root_inode_ref;
+		unsigned long long h = 1469598103934665603ULL; int r = 0, n = 0, lim = argc >= 3 ? atoi(argv[2]) : 40; size_t i;
+		if (strcmp(argv[1], "/")) r = sqfs_dir_reader_resolve_path(d, argv[1], NULL, &ref);
+		if (!r) r = sqfs_dir_reader_get_inode(d, ref, &ino);
+		if (!r) r = sqfs_dir_reader_open_dir(d, ino, &st, 0);
+		while (!r && n < lim) {
+			int g;
+			ent = NULL; p = NULL;
+			r = sqfs_dir_reader_read(d, &st, &ent);
+			if (r) break;
+			g = sqfs_dir_reader_get_inode(d, st.ent_ref, &p);
+			for (i = 0; i <= ent->size; ++i) { h ^= ent->name[i]; h *= 1099511628211ULL; }
+			h ^= (st.ent_ref & 0xffffffff); h *= 1099511628211ULL; h ^= (st.ent_ref >> 32); h *= 1099511628211ULL;
+			h ^= (unsigned)g; h *= 1099511628211ULL; h ^= g ? 0 : p->base.inode_number; h *= 1099511628211ULL;
+			++n; sqfs_free(ent); sqfs_free(p);
+		}
+		out("walk %d %d %016llx", r > 0 ? 0 : r, n, h); sqfs_free(ino);
 	} else out("bad-op");
 }
 
@@ -638,6 +744,156 @@ static void op_xrd(sqfs_xattr_reader_t *x, int argc, char **argv)
 	} else out("bad-op");
 }
 
+/* ------------------------------------------------------------------ the generic containers as units */
+static int u_cmp(const void *ctx, const void *l, const void *r) { (void)ctx; return memcmp(l, r, U_ks); }
+
+static int unit_setup(void)
+{
+	switch (E.kind) {
+	case K_RBT: { rbtree_t *t = __real_calloc(1, sizeof(*t)); if (!t || rbtree_init(t, U_ks, U_vs, u_cmp)) return -1; E.obj[0] = t; return 0; }
+	case K_ARR: { array_t *a = __real_calloc(1, sizeof(*a)); if (!a || array_init(a, U_sz, 0)) return -1; E.obj[0] = a; return 0; }
+	case K_STRT: { str_table_t *t = __real_calloc(1, sizeof(*t)); if (!t || str_table_init(t)) return -1; E.obj[0] = t; return 0; }
+	}
+	return -1;
+}
+
+static void unit_release(int t)
+{
+	if (!E.obj[t]) return;
+	switch (E.kind) {
+	case K_RBT: rbtree_cleanup(E.obj[t]); break;
+	case K_ARR: array_cleanup(E.obj[t]); break;
+	case K_STRT: str_table_cleanup(E.obj[t]); break;
+	}
+	free(E.obj[t]); E.obj[t] = NULL;
+}
+
+static int node_in(const rbtree_node_t *n, const rbtree_node_t *x)
+{
+	return n && (n == x || node_in(n->left, x) || node_in(n->right, x));
+}
+static int tree_shares(const rbtree_node_t *a, const rbtree_node_t *b)	/* does tree b contain a node of tree a */
+{
+	return b && (node_in(a, b) || tree_shares(a, b->left) || tree_shares(a, b->right));
+}
+static int all_zero(const void *p, size_t n) { const unsigned char *b = p; size_t i; for (i = 0; i < n; ++i) if (b[i]) return 0; return 1; }
+
+/* every hash table entry of a string table must lead to the table's own bucket of that index, by data and by key */
+static int strt_consistent(const str_table_t *t)
+{
+	size_t n = 0;
+	hash_table_foreach(t->ht, ent) {
+		const str_bucket_t *b = ent->data;
+		if (!b || b->index >= t->bucket_ptrs.used || ((str_bucket_t **)t->bucket_ptrs.data)[b->index] != b || ent->key != b->string) return 0;
+		++n;
+	}
+	return n == t->next_index && t->bucket_ptrs.used == t->next_index;
+}
+
+static void unit_copy(long k)
+{
+	int ret;
+	alloc_calls = 0;
+	switch (E.kind) {
+	case K_RBT: { rbtree_t *o = E.obj[0], *c = __real_malloc(sizeof(*c));
+		memset(c, 0x55, sizeof(*c));
+		alloc_fail_at = k; ret = rbtree_copy(o, c); alloc_fail_at = 0;
+		if (ret) { out("copy %d zeroed=%d", ret, all_zero(c, sizeof(*c))); free(c); return; }
+		E.obj[1] = c;
+		if (c->key_size != o->key_size || c->key_size_padded != o->key_size_padded || c->value_size != o->value_size || c->key_compare != o->key_compare)
+			out("copy 0 kp=%zu alias=fields-differ", c->key_size_padded);
+		else out("copy 0 kp=%zu alias=%d", c->key_size_padded, (o->root && c->root == o->root) || tree_shares(o->root, c->root));
+		return; }
+	case K_ARR: { array_t *o = E.obj[0], *c = __real_malloc(sizeof(*c));
+		memset(c, 0x55, sizeof(*c));
+		alloc_fail_at = k; ret = array_init_copy(c, o); alloc_fail_at = 0;
+		if (ret) { out("copy %d zeroed=%d", ret, all_zero(c, sizeof(*c))); free(c); return; }
+		E.obj[1] = c;
+		out("copy 0 size=%zu used=%zu count=%zu alias=%d", c->size, c->used, c->count, c->data != NULL && c->data == o->data);
+		return; }
+	case K_STRT: { str_table_t *o = E.obj[0], *c = __real_malloc(sizeof(*c)); size_t i; int alias;
+		memset(c, 0, sizeof(*c));	/* (str_table_copy fills bucket_ptrs and ht; next_index comes with the owner's struct copy) */
+		c->next_index = o->next_index;
+		alloc_fail_at = k; ret = str_table_copy(c, o); alloc_fail_at = 0;
+		if (ret) { out("copy %d", ret); free(c); return; }
+		E.obj[1] = c;
+		alias = c->ht == o->ht || c->ht->table == o->ht->table || (c->bucket_ptrs.data && c->bucket_ptrs.data == o->bucket_ptrs.data);
+		for (i = 0; i < c->bucket_ptrs.used && i < o->bucket_ptrs.used; ++i)
+			alias |= ((str_bucket_t **)c->bucket_ptrs.data)[i] == ((str_bucket_t **)o->bucket_ptrs.data)[i];
+		out("copy 0 alias=%d", alias);
+		return; }
+	}
+	out("bad-op");
+}
+
+static void op_unit(void *ob, int argc, char **argv)
+{
+	unsigned char *a = NULL, *b = NULL; long an, bn;
+	if (E.kind == K_RBT) {
+		rbtree_t *t = ob;
+		if (argc >= 3 && !strcmp(argv[0], "ins")) {
+			an = hex_decode_tok(argv[1], &a, 0); bn = hex_decode_tok(argv[2], &b, 0);
+			if (an != (long)U_ks || bn != (long)U_vs) out("bad-op"); else out("ins %d", rbtree_insert(t, a, b));
+			free(a); free(b);
+		} else if (argc >= 2 && !strcmp(argv[0], "look")) {
+			rbtree_node_t *n;
+			an = hex_decode_tok(argv[1], &a, 0);
+			if (an != (long)U_ks) { out("bad-op"); free(a); return; }
+			n = rbtree_lookup(t, a);
+			if (!n) out("look none");
+			else { printf("look %u ", n->value_offset); put_hex(n->data, t->key_size_padded + t->value_size);
+				printf(" key="); put_hex(rbtree_node_key(n), t->key_size); printf(" value="); put_hex(rbtree_node_value(n), t->value_size); putchar('\n'); fflush(stdout); }
+			free(a);
+		} else if (!strcmp(argv[0], "dump")) {
+			int first = 1, wf = 1; const rbtree_node_t *stack[128]; int sp = 0;
+			if (t->root) stack[sp++] = t->root;
+			while (sp > 0) { const rbtree_node_t *n = stack[--sp]; if (n->value_offset != t->key_size_padded) wf = 0;
+				if (n->left && sp < 127) stack[sp++] = n->left; if (n->right && sp < 127) stack[sp++] = n->right; }
+			printf("dump ks=%zu kp=%zu vs=%zu wf=%d tree=", t->key_size, t->key_size_padded, t->value_size, wf);
+			tree_tokens(t, t->root, &first); putchar('\n'); fflush(stdout);
+		} else out("bad-op");
+	} else if (E.kind == K_ARR) {
+		array_t *t = ob;
+		if (argc >= 2 && !strcmp(argv[0], "app")) {
+			an = hex_decode_tok(argv[1], &a, 0);
+			if (an != (long)U_sz) out("bad-op"); else out("app %d", array_append(t, a));
+			free(a);
+		} else if (argc >= 2 && !strcmp(argv[0], "get")) {
+			void *p = array_get(t, strtoul(argv[1], 0, 0));
+			if (!p) out("get null"); else { printf("get "); put_hex(p, t->size); putchar('\n'); fflush(stdout); }
+		} else if (argc >= 3 && !strcmp(argv[0], "set")) {
+			an = hex_decode_tok(argv[2], &a, 0);
+			if (an != (long)U_sz) out("bad-op"); else out("set %d", array_set(t, strtoul(argv[1], 0, 0), a));
+			free(a);
+		} else if (!strcmp(argv[0], "used")) out("used %zu", t->used);
+		else if (!strcmp(argv[0], "dump")) { printf("dump size=%zu used=%zu count=%zu data=", t->size, t->used, t->count); put_hex(t->data ? t->data : (void *)"", t->used * t->size); putchar('\n'); fflush(stdout); }
+		else out("bad-op");
+	} else if (E.kind == K_STRT) {
+		str_table_t *t = ob;
+		if (argc >= 2 && !strcmp(argv[0], "index")) {
+			size_t idx = 0; int r;
+			an = hex_decode_tok(argv[1], &a, 1);
+			if (an < 0 || memchr(a, 0, an)) { out("bad-op"); free(a); return; }
+			r = str_table_get_index(t, (char *)a, &idx); out("index %d %zu", r, r ? (size_t)0 : idx); free(a);
+		} else if (argc >= 2 && !strcmp(argv[0], "str")) {
+			const char *p = str_table_get_string(t, strtoul(argv[1], 0, 0));
+			if (!p) out("str null"); else { printf("str "); put_hex((const unsigned char *)p, strlen(p)); putchar('\n'); fflush(stdout); }
+		} else if (argc >= 2 && !strcmp(argv[0], "ref")) { str_table_add_ref(t, strtoul(argv[1], 0, 0)); out("ref"); }
+		else if (argc >= 2 && !strcmp(argv[0], "unref")) { str_table_del_ref(t, strtoul(argv[1], 0, 0)); out("unref"); }
+		else if (argc >= 2 && !strcmp(argv[0], "count")) out("count %zu", str_table_get_ref_count(t, strtoul(argv[1], 0, 0)));
+		else if (!strcmp(argv[0], "dump")) {
+			size_t i;
+			printf("dump next=%zu b=", t->next_index);
+			if (t->bucket_ptrs.used == 0) putchar('-');
+			for (i = 0; i < t->bucket_ptrs.used; ++i) { const str_bucket_t *bk = ((str_bucket_t **)t->bucket_ptrs.data)[i];
+				if (!bk) { printf("%s%zu:NULL", i ? "," : "", i); continue; }
+				printf("%s%zu:%zu:", i ? "," : "", bk->index, bk->refcount); put_hex((const unsigned char *)bk->string, strlen(bk->string)); }
+			if (!strt_consistent(t)) printf(" ht=INCONSISTENT");
+			putchar('\n'); fflush(stdout);
+		} else out("bad-op");
+	} else out("bad-op");
+}
+
 static int flush_seq, fd_base;
 static void op_xwr(sqfs_xattr_writer_t *w, int argc, char **argv)
 {
@@ -680,6 +936,7 @@ static void do_op(int t, int argc, char **argv)
 	case K_DATA: op_data(ob, argc, argv); break;
 	case K_XRD: op_xrd(ob, argc, argv); break;
 	case K_XWR: op_xwr(ob, argc, argv); break;
+	case K_RBT: case K_ARR: case K_STRT: op_unit(ob, argc, argv); break;
 	}
 }
 
@@ -695,6 +952,7 @@ static void run_line(char *line)
 		rcsnap_t s; char pb[512]; long k = argc >= 2 ? strtol(argv[1], 0, 0) : 0; long used;
 		int fds = count_fds();
 		if (E.obj[1] || !E.obj[0]) { out("bad-op"); return; }
+		if (IS_UNIT(E.kind)) { unit_copy(k); return; }
 		snap_refs(E.obj[0], &s);
 		E.file_rc_before = rc_of(E.file); E.cmp_rc_before = rc_of(E.cmp);
 		alloc_calls = 0; alloc_fail_at = k;
@@ -707,10 +965,13 @@ static void run_line(char *line)
 	}
 	if (!strcmp(argv[0], "drop") && argc >= 2 && (t = target(argv[1])) >= 0) {
 		if (!E.obj[t]) { out("no-object"); return; }
+		if (IS_UNIT(E.kind)) { unit_release(t); out("drop"); return; }
 		sqfs_drop(E.obj[t]); E.obj[t] = NULL;
 		out("drop %s file=%zu cmp=%zu", argv[1], rc_of(E.file), rc_of(E.cmp));
 		return;
 	}
+	if (IS_UNIT(E.kind) && (!strcmp(argv[0], "grab") || !strcmp(argv[0], "ungrab") || !strcmp(argv[0], "views") || !strcmp(argv[0], "rcs") ||
+				 !strcmp(argv[0], "dropenv") || (!strcmp(argv[0], "dump") && argc >= 2 && target(argv[1]) >= 0))) { out("bad-op"); return; }
 	if (!strcmp(argv[0], "grab") && argc >= 2 && (t = target(argv[1])) >= 0 && E.obj[t]) {
 		sqfs_grab(E.obj[t]); out("grab %s %zu", argv[1], rc_of(E.obj[t])); return;
 	}
@@ -731,6 +992,17 @@ static void run_line(char *line)
 		E.file = sqfs_drop(E.file); E.cmp = sqfs_drop(E.cmp);
 		out("dropenv"); return;
 	}
+	if (!strcmp(argv[0], "f") && argc >= 2 && E.kind == K_DIR) {
+		/* the same question put to a reader created for it (same flags, no history) and released straight afterwards:
+		   what listing, path resolution from the root and the "." / ".." entries answer does not depend on the history */
+		sqfs_dir_reader_t *f;
+		if (!E.file || !E.cmp) { out("no-object"); return; }
+		f = sqfs_dir_reader_create(&E.super, E.cmp, E.file, E.dirflags);
+		if (!f) { out("fresh-failed"); return; }
+		op_dir(f, argc - 1, argv + 1);
+		sqfs_drop(f);
+		return;
+	}
 	t = target(argv[0]);
 	if (t < 0 || argc < 2) { out("bad-op"); return; }
 	do_op(t, argc - 1, argv + 1);
@@ -739,6 +1011,7 @@ static void run_line(char *line)
 static void teardown(void)
 {
 	int i;
+	if (IS_UNIT(E.kind)) { unit_release(0); unit_release(1); return; }
 	for (i = 0; i < NOBJ; ++i)
 		if (E.obj[i]) { sqfs_drop(E.obj[i]); E.obj[i] = NULL; }
 	sqfs_drop(E.helper_dir); sqfs_drop(E.helper_cmp); sqfs_drop(E.helper_file); sqfs_drop(E.helper_unc);
